@@ -482,7 +482,16 @@ func (fr *frame) mapCase(b []*Term, upper bool) value {
 		}
 		r, sz := fr.decodeRune(b[p:])
 		if !r.IsConst() {
-			panic(engineError{"bound: case mapping of a symbolic non-ASCII rune is not modelled"})
+			// run the real unicode.ToLower / ToUpper on the symbolic rune
+			name := "ToLower"
+			if upper {
+				name = "ToUpper"
+			}
+			fn := fr.w.eng.Prog.ImportedPackage("unicode").Func(name)
+			mr := fr.w.call(fr, 0, fn, []value{r}).(*Term)
+			out = append(out, fr.encodeRune(mr)...)
+			p += sz
+			continue
 		}
 		var m string
 		if upper {
